@@ -204,8 +204,12 @@ impl<'a> Hist<'a> {
             }
             _ => {
                 // invalid arguments
-                match self.rng.below(5) {
-                    0 => Op::Get(TO + 1 + self.rng.below(3), class, slot, None),
+                // orders beyond the tree order include the widths at which `1 << order` overflows
+                let big = *self.rng.pick(&[TO + 1, TO + 2, TO + 3, 31, 32, 63, 64, 65, 127, 255]);
+                match self.rng.below(7) {
+                    0 => Op::Get(big, class, slot, None),
+                    5 => Op::Put(if frames > 1 { self.rng.below(frames) & !1 } else { 0 }, big, class, slot),
+                    6 => Op::Get(if self.rng.chance(50) { big } else { 0 }, class, slot, Some((1 << 30) + self.rng.below(5) * 64)),
                     1 => {
                         let o = 1 + self.rng.below(6);
                         let f = self.rng.below(frames) | 1;
